@@ -75,3 +75,14 @@ MUTANTS += [
      [(D, "        if not date_1904 and excel_day_number > 59:", "        if not date_1904 and date_ > date(1900, 3, 1):")],
      "R8.4 Category._excel_date_number"),
 ]
+
+MUTANTS += [
+    ("leaf-count-memoised", "the leaf count of the categories is computed once",
+     [(D, "        raise ValueError(\"category not in top-level categories\")\n\n    @property\n    def leaf_count(self):",
+       "        raise ValueError(\"category not in top-level categories\")\n\n    @lazyproperty\n    def leaf_count(self):")],
+     "R8.8 Categories.leaf_count"),
+    ("workbook-blob-memoised", "the workbook writer composes its blob once",
+     [(X, "    @property\n    def xlsx_blob(self):", "    @functools.cached_property\n    def xlsx_blob(self):"),
+      (X, "import io", "import functools\nimport io")],
+     "R8.8 _BaseWorkbookWriter.xlsx_blob"),
+]
